@@ -52,7 +52,15 @@ def withCtx (s : HSt) (c : Ctx) : HSt := ⟨s.heap, c⟩
 @[simp] theorem withCtx_heap (s : HSt) (c : Ctx) : (s.withCtx c).heap = s.heap := rfl
 @[simp] theorem withCtx_ctx (s : HSt) (c : Ctx) : (s.withCtx c).ctx = c := rfl
 @[simp] theorem withCtx_self (s : HSt) : s.withCtx s.ctx = s := rfl
+@[simp] theorem withCtx_withCtx (s : HSt) (a b : Ctx) : (s.withCtx a).withCtx b = s.withCtx b := rfl
 end HSt
+
+/-- a model array handle over a heap storage as the generated `Array` record (as `trArr` of Props/TransSlabsRoot.lean,
+    with the heap storage) -/
+def trArrH (a : Arr) (s : HSt) : HArray := { Storage := s, root := some (trTree a.d a.root) }
+
+@[simp] theorem trArrH_Storage (a : Arr) (s : HSt) : (trArrH a s).Storage = s := rfl
+@[simp] theorem trArrH_root (a : Arr) (s : HSt) : (trArrH a s).root = some (trTree a.d a.root) := rfl
 
 /-- the parameters of the generated functions over a heap -/
 def envH (T : Nat) : HEnv where
